@@ -255,3 +255,49 @@ theorem firstUnretryable_some (sts : List (Option Nat)) (j : Nat) (h : firstUnre
       exact ⟨⟨x, by simp, by simpa using hx⟩, by intro i hi; omega⟩
 
 end Guarded
+
+namespace Guarded
+
+/-- every document ever added is either acknowledged or still buffered, in order, none twice -/
+def StoreInv (s : Store) : Prop := s.acked ++ s.buffer = List.range s.next
+
+theorem flushStep_inv (rnd : Nat → Rat) (s : Store) (refresh : Bool) (bulk refr : List Outcome) (h : StoreInv s) :
+    StoreInv (flushStep rnd s refresh bulk refr).1 := by
+  unfold StoreInv at h ⊢
+  by_cases he : s.buffer.isEmpty = true
+  · cases refresh <;> simp [flushStep, he, h]
+  · by_cases hb : isReturned (callThenSucceed rnd s.draws bulk).res = true
+    · cases refresh <;> simp [flushStep, he, hb, h]
+    · cases refresh <;> simp [flushStep, he, hb, h]
+
+theorem storeStep_inv (rnd : Nat → Rat) (s : Store) (st : StoreStep) (h : StoreInv s) : StoreInv (storeStep rnd s st).1 := by
+  cases st with
+  | put n =>
+    unfold StoreInv at h ⊢
+    simp only [storeStep]
+    rw [← List.append_assoc, h, List.range_add]
+  | flush refresh bulk refr => exact flushStep_inv rnd s refresh bulk refr h
+
+theorem runStore_inv (rnd : Nat → Rat) (s : Store) (steps : List StoreStep) (h : StoreInv s) :
+    StoreInv (runStore rnd s steps).1 := by
+  induction steps generalizing s with
+  | nil => exact h
+  | cons st rest ih =>
+    simp only [runStore]
+    exact ih _ (storeStep_inv rnd s st h)
+
+/-- a flush whose bulk call did not raise leaves an empty buffer; otherwise it raised after that one call and
+    buffer and acknowledgements are as before -/
+theorem flushStep_buffer (rnd : Nat → Rat) (s : Store) (refresh : Bool) (bulk refr : List Outcome) :
+    (flushStep rnd s refresh bulk refr).1.buffer = [] ∨
+    ((flushStep rnd s refresh bulk refr).2.err.isSome = true ∧ (flushStep rnd s refresh bulk refr).2.runs.length = 1 ∧
+      (flushStep rnd s refresh bulk refr).1.buffer = s.buffer ∧ (flushStep rnd s refresh bulk refr).1.acked = s.acked) := by
+  by_cases he : s.buffer.isEmpty = true
+  · left
+    have : s.buffer = [] := by simpa using he
+    cases refresh <;> simp [flushStep, he, this]
+  · by_cases hb : isReturned (callThenSucceed rnd s.draws bulk).res = true
+    · left; cases refresh <;> simp [flushStep, he, hb]
+    · right; cases refresh <;> simp [flushStep, he, hb]
+
+end Guarded
